@@ -83,6 +83,10 @@ func TestC01(t *testing.T) {
 		switch p.TLS {
 		case "static":
 			cfg.TLSConfig = &tls.Config{ServerName: "localhost", MinVersion: tls.VersionTLS12}
+		case "static-roots":
+			// a static configuration that brings trust roots of its own
+			rc, _, _ := vp.GenCert()
+			cfg.TLSConfig = &tls.Config{ServerName: "localhost", MinVersion: tls.VersionTLS12, RootCAs: vp.PoolOf(rc)}
 		case "auto":
 			cfg.AutoMTLS = true
 		}
